@@ -26,6 +26,7 @@ open Djc.Tpl
 
 inductive Err where
   | outOfFuel
+  | budget                            -- more work than the driver is willing to do (the case is skipped, not judged)
   | tse (site : String)               -- TemplateSyntaxError
   | notRegistered
   | keyError (site : String)
@@ -105,6 +106,7 @@ structure World where
   events : List Ev := []
   rcLeak : Nat := 0                             -- layers left on the caller's render_context
   gcds : Nat := 0                               -- number of `get_context_data` calls so far
+  steps : Nat := 0                              -- node renders so far
 deriving Repr, Inhabited
 
 structure Env where
@@ -112,6 +114,7 @@ structure Env where
   lib : List CompDef
   raiseAt : Option (Nat × Nat) := none          -- (event index, error class)
   maxInst : Nat := 150                          -- more `get_context_data` calls than this = divergence
+  maxSteps : Nat := 30000                       -- node renders the driver is willing to do for one program
 deriving Repr, Inhabited
 
 abbrev M := ExceptT Err (StateM World)
@@ -418,7 +421,10 @@ mutual
 
   def renderNode (env : Env) : Nat → Node → Ctx → M (List Tok)
     | 0, _, _ => throw .outOfFuel
-    | n + 1, nd, ctx =>
+    | n + 1, nd, ctx => do
+      let w ← get
+      if w.steps ≥ env.maxSteps then throw .budget
+      set { w with steps := w.steps + 1 }
       match nd with
       | .text s => pure [.text s]
       | .out e =>
@@ -593,6 +599,7 @@ mutual
     | n + 1, nameE, isDefault, isRequired, data, body, ctx => do
       let nameV := evalExpr ctx nameE
       let slotData := evalKwargs ctx data
+      if slotData.any (fun kv => tooDeep 10 kv.2) then throw .budget
       if isExtracting ctx then return []
       let cid ← match ctxGet ctx compKey with
         | some (.compRef c) => pure c
